@@ -869,6 +869,33 @@ def rule_r8(ctx):
         raise AnalysisBroken("only %d places change the timeout of a caller's aio" % n)
 
 
+def rule_r9(ctx):
+    r = ctx.rule("C15.R9", "T1", "publish, then look: nni_pollable_raise writes the notification pipe only once the descriptors are "
+                 "published, so nni_pollable_getfd samples the level (p_raised) and primes the new pipe only after its "
+                 "compare-and-swap has published them -- a level sampled earlier can be stale, and a raise that lands in "
+                 "between is lost: the descriptor stays unreadable with a message waiting", floor=2)
+    f = ctx.prog.need("nni_pollable_getfd", "core/pollable.c")
+    cas = [c for c in f.calls("nni_atomic_cas64")]
+    G.need_sites(cas, "nni_atomic_cas64 publishing the descriptors", f)
+    ok_edges = {}
+    for c in cas:
+        for b, (nz, z) in f.value_edges(c).items():
+            ok_edges[b] = nz
+    if not ok_edges:
+        raise AnalysisBroken("the result of the publishing compare-and-swap is not tested")
+    looks = [c for c in f.calls("nni_atomic_get_bool") if c.node["args"] and (last_field(f.expand(c.node["args"][0])) or "").endswith(".p_raised")]
+    primes = [c for c in f.calls("nni_plat_pipe_raise")]
+    G.need_sites(looks + primes, "level sample / priming write", f)
+    for c in looks + primes:
+        if G.dominated(f, (c.b, c.i), ok_edges):
+            r.ob(f, "%s line %s: after the descriptors were published" % (c.node["fn"], c.line))
+        else:
+            ctx.fail(r, f, "%s before the descriptors are published" % c.node["fn"], c.line,
+                     "nni_pollable_getfd calls %s at line %s on a path that has not yet published p_fds: a concurrent "
+                     "nni_pollable_raise sees no descriptors and writes nothing, the sampled level is already stale, and the new "
+                     "descriptor never becomes readable" % (c.node["fn"], c.line))
+
+
 def run(ctx):
     ctx.guard(rule_a6)
     ctx.guard(rule_r4)
@@ -876,3 +903,4 @@ def run(ctx):
     ctx.guard(rule_r6)
     ctx.guard(rule_r7)
     ctx.guard(rule_r8)
+    ctx.guard(rule_r9)
